@@ -274,6 +274,27 @@ pub fn random_def(rng: &mut Rng, name: &str, conflicts: bool, many_tokens: bool)
 }
 
 
+/// Enum-level attributes that make the derive emit a diagnostic (one distinct message site each).
+pub const ENUM_DIAGNOSTICS: &[&str] = &[
+    "#[logos]", "#[logos(frobnicate)]", "#[logos(frobnicate = 1)]", "#[logos(crate)]", "#[logos(crate = 5)]",
+    "#[logos(error = DupA)]\n#[logos(error = DupB)]", "#[logos(error())]", "#[logos(error)]", "#[logos(error(E, 5))]", "#[logos(error(E, callback = f, callback = g))]",
+    "#[logos(error(E, frob = 1))]", "#[logos(extras)]", "#[logos(extras = XA)]\n#[logos(extras = XB)]", "#[logos(subpattern)]", "#[logos(subpattern lonely)]",
+    "#[logos(subpattern dup = \"a\")]\n#[logos(subpattern dup = \"b\")]", "#[logos(subpattern bad = \"(\")]", "#[logos(subpattern five = 5)]",
+    "#[logos(type T)]", "#[logos(type Undeclared = u8)]", "#[logos(utf8 = 5)]", "#[logos(utf8 = true)]\n#[logos(utf8 = false)]", "#[logos(utf8)]",
+    "#[logos(lifetime = 'x)]\n#[logos(lifetime = 'y)]", "#[logos(lifetime = 5)]", "#[logos(lifetime)]", "#[logos(skip)]", "#[logos(skip(5))]", "#[logos(skip \"a*\")]",
+    "#[logos(skip(\"z\", priority = 1, priority = 2))]", "#[logos(skip(\"(\"))]", "#[logos(export_dir = 5)]", "#[logos(export_dir)]", "#[logos(skip \"(?&nowhere)\")]",
+];
+
+/// Variant-level attributes that make the derive emit a diagnostic; each gets a unit variant of its own.
+pub const VARIANT_DIAGNOSTICS: &[&str] = &[
+    "#[error]", "#[token]", "#[regex]", "#[token(5)]", "#[regex(5)]", "#[token()]", "#[token(\"p1\", priority = \"x\")]", "#[token(\"p2\", priority = 1, priority = 2)]",
+    "#[token(\"p3\", priority)]", "#[token(\"c1\", callback = 5)]", "#[token(\"c2\", first_cb, callback = second_cb)]", "#[token(\"c3\", callback)]", "#[token(\"c4\", |lex|)]",
+    "#[regex(\"i1\", ignore(frob))]", "#[regex(\"i2\", ignore)]", "#[regex(\"i3\", ignore(case, ascii_case))]", "#[regex(\"g1.*\", allow_greedy = 3)]",
+    "#[regex(\"g2\", allow_greedy = true, allow_greedy = false)]", "#[regex(\"g3\", allow_greedy)]", "#[regex(\"u1\", frobnicate = 1)]", "#[regex(\"u2\", 1 + 1)]",
+    "#[regex(\"(\")]", "#[regex(\"[z-a]\")]", "#[regex(\"x{2,1}\")]", "#[regex(\"(?<=a)b\")]", "#[regex(\"\\\\b\")]", "#[regex(\"q*\")]", "#[regex(\"(?&missing_one)(?&missing_two)\")]",
+    "#[token(\"\")]", "#[regex(\"\")]", "#[logos(skip)]", "#[logos(priority = 3)]", "#[token(b\"\\xff\")]", "#[regex(\".+\")]", "#[regex(\"[^\\n]*x\")]",
+];
+
 /// Source text of a "rich" random definition for the compiler-side engines (hash-sim, cli-sim), which only run the code
 /// generator and never compile its output: subpatterns, custom error types with callbacks, extras, `crate = ..`, lifetimes
 /// and type parameters, named and closure callbacks, several attributes per variant, enum-level skips with callbacks.
@@ -313,6 +334,20 @@ pub fn rich_def_source(rng: &mut Rng, name: &str) -> String {
     if generic {
         s.push_str("#[logos(type T = u64)]\n");
     }
+    // diagnostic catalog: every way the derive can say no should be taken by some definition, and (because the text of a
+    // diagnostic is output too) more than once per process; a third of the rich definitions draw 1-4 entries
+    let catalog = rng.chance(1, 3);
+    let mut variant_diags: Vec<&'static str> = Vec::new();
+    if catalog {
+        for _ in 0..rng.range(1, 4) {
+            if rng.chance(1, 2) {
+                s.push_str(*rng.pick(ENUM_DIAGNOSTICS));
+                s.push('\n');
+            } else {
+                variant_diags.push(*rng.pick(VARIANT_DIAGNOSTICS));
+            }
+        }
+    }
     let generics = match (lifetime, generic) {
         (true, true) => "<'s, T>",
         (true, false) => "<'s>",
@@ -320,6 +355,9 @@ pub fn rich_def_source(rng: &mut Rng, name: &str) -> String {
         _ => "",
     };
     let _ = writeln!(s, "pub enum {}{} {{", name, generics);
+    for (k, d) in variant_diags.iter().enumerate() {
+        let _ = writeln!(s, "    {}\n    Diag{},", d, k);
+    }
     // "error soup": several diagnostics of different kinds at once (their text and order are output too)
     let soup = rng.chance(1, 3);
     if soup {
